@@ -8,6 +8,35 @@ pub struct TypeResolver {
     type_mappings: HashMap<String, String>,
 }
 
+/// Byte position of the first comma of `inner` that is not nested inside `<..>`, `(..)` or
+/// `[..]`, i.e. the comma that separates the first type of a list from the rest
+pub(crate) fn find_top_level_comma(inner: &str) -> Option<usize> {
+    let mut depth = 0i32;
+    for (i, ch) in inner.char_indices() {
+        match ch {
+            '<' | '(' | '[' => depth += 1,
+            '>' | ')' | ']' => depth -= 1,
+            ',' if depth == 0 => return Some(i),
+            _ => {}
+        }
+    }
+    None
+}
+
+/// Split a comma separated list of types at its top-level commas (a trailing comma is ignored)
+pub(crate) fn split_top_level_types(inner: &str) -> Vec<&str> {
+    let mut parts = Vec::new();
+    let mut rest = inner;
+    while let Some(pos) = find_top_level_comma(rest) {
+        parts.push(rest[..pos].trim());
+        rest = &rest[pos + 1..];
+    }
+    if !rest.trim().is_empty() || parts.is_empty() {
+        parts.push(rest.trim());
+    }
+    parts
+}
+
 impl TypeResolver {
     pub fn new() -> Self {
         let mut type_set = HashSet::new();
@@ -59,7 +88,7 @@ impl TypeResolver {
     fn extract_result_ok_type(&self, rust_type: &str) -> Option<String> {
         if rust_type.starts_with("Result<") && rust_type.ends_with('>') {
             let inner = &rust_type[7..rust_type.len() - 1];
-            if let Some(comma_pos) = inner.find(',') {
+            if let Some(comma_pos) = find_top_level_comma(inner) {
                 let ok_type = inner[..comma_pos].trim();
                 Some(ok_type.to_string())
             } else {
@@ -127,7 +156,10 @@ impl TypeResolver {
             if inner.trim().is_empty() {
                 return Some(vec![]);
             }
-            let types: Vec<String> = inner.split(',').map(|s| s.trim().to_string()).collect();
+            let types: Vec<String> = split_top_level_types(inner)
+                .into_iter()
+                .map(|s| s.to_string())
+                .collect();
             Some(types)
         } else {
             None
@@ -143,28 +175,10 @@ impl TypeResolver {
 
     /// Parse two type parameters separated by comma (for HashMap, BTreeMap)
     fn parse_two_type_params(&self, inner: &str) -> Option<(String, String)> {
-        let mut depth = 0;
-        let mut comma_pos = None;
-
-        for (i, ch) in inner.char_indices() {
-            match ch {
-                '<' => depth += 1,
-                '>' => depth -= 1,
-                ',' if depth == 0 => {
-                    comma_pos = Some(i);
-                    break;
-                }
-                _ => {}
-            }
-        }
-
-        if let Some(pos) = comma_pos {
-            let key_type = inner[..pos].trim().to_string();
-            let value_type = inner[pos + 1..].trim().to_string();
-            Some((key_type, value_type))
-        } else {
-            None
-        }
+        let pos = find_top_level_comma(inner)?;
+        let key_type = inner[..pos].trim().to_string();
+        let value_type = inner[pos + 1..].trim().to_string();
+        Some((key_type, value_type))
     }
 
     /// Get the type mappings
